@@ -211,4 +211,10 @@ def namespaceAnswers (kw : List String) (sigs : List Sig) (extra : List String) 
   let bl := baseList sigs ++ extra
   answers kw (fun i => bl[i]?.getD "") reqs
 
+/-- The same with the repaired `get_name` (`getNameFixed`). -/
+def namespaceAnswersFixed (kw : List String) (sigs : List Sig) (extra : List String) (reqs : List Nat) :
+    List (SigId × String) :=
+  let bl := baseList sigs ++ extra
+  answersFixed kw (fun i => bl[i]?.getD "") reqs
+
 end Litex.Namer
